@@ -147,3 +147,62 @@ def aliased_then_mutated(repo, modname, qual):
                             out.append((modname, qual, st, "`%s` is bound to `%s` without a copy and then written through (`%s`): the "
                                         "object it came from is modified" % (a, ast.unparse(asg.value), ast.unparse(st)[:50])))
     return out
+
+
+LIBRARY_LEVEL_OPTIONS = {
+    "literalinclude2": "documented as a library-level option (C16: 'library-level literalinclude2 excluded')",
+    "PY_write_helper_in_util": "one utility file per library: a per-declaration value has no meaning",
+}
+
+
+def library_option_reads(repo, modules):
+    """`<library>.options.X` read in a function that works on one declaration (has a node/cls/... parameter)"""
+    out, n = [], 0
+    for mn in modules:
+        m = repo.module(mn)
+        for q, fn in m.functions().items():
+            params = [a.arg for a in fn.args.args]
+            if not any(p in params for p in ("node", "cls", "function", "method", "var")):
+                continue
+            for x in ast.walk(fn):
+                if isinstance(x, ast.Attribute) and isinstance(x.value, ast.Attribute) and x.value.attr == "options":
+                    d = pyflow.dotted(x.value.value) or ""
+                    if d.endswith("newlibrary") or d in ("libnode", "library"):
+                        n += 1
+                        if x.attr not in LIBRARY_LEVEL_OPTIONS:
+                            out.append((mn, q, x, "`%s` reads the option at library level inside a pass over one declaration: "
+                                        "the same option set on the declaration (or its class/namespace) is ignored"
+                                        % (pyflow.dotted(x) or x.attr)))
+    return out, n
+
+
+def dead_none_tests(repo, modules):
+    """`x.F is None` / `is not None` where F is a field that Declaration.__init__ creates as a list and nothing ever
+    sets to None: the test is constant, so a check guarded by it never runs (use `not x.F`)."""
+    dm = repo.module("declast")
+    ini = dm.func("Declaration.__init__")
+    lists = set(a.targets[0].attr for a in ast.walk(ini) if isinstance(a, ast.Assign)
+                and isinstance(a.targets[0], ast.Attribute) and isinstance(a.value, ast.List))
+    for m in repo.modules():
+        for a in ast.walk(m.tree):
+            if isinstance(a, ast.Assign) and isinstance(a.targets[0], ast.Attribute) and a.targets[0].attr in lists \
+                    and isinstance(a.value, ast.Constant) and a.value.value is None:
+                lists.discard(a.targets[0].attr)
+    out, n = [], 0
+    for mn in modules:
+        m = repo.module(mn)
+        for q, fn in m.functions().items():
+            for c in ast.walk(fn):
+                if isinstance(c, ast.Compare) and len(c.ops) == 1 and isinstance(c.ops[0], (ast.Is, ast.IsNot)) \
+                        and isinstance(c.comparators[0], ast.Constant) and c.comparators[0].value is None:
+                    n += 1
+                    src = c.left
+                    # follow one local alias:  temp = arg.template_arguments ; if temp is None
+                    if isinstance(src, ast.Name):
+                        defs = [a.value for a in ast.walk(fn) if isinstance(a, ast.Assign) and pyflow.is_name(a.targets[0], src.id)]
+                        if len(defs) == 1:
+                            src = defs[0]
+                    if isinstance(src, ast.Attribute) and src.attr in lists:
+                        out.append((mn, q, c, "`%s` can never hold: %s is always a list (possibly empty); the check it guards "
+                                    "is dead" % (ast.unparse(c), src.attr)))
+    return out, n, lists
